@@ -1,2 +1,4 @@
+# setup: nothing to pre-build -- every check compiles the engine together with its harness against the
+# library objects of /repo's current working tree (run_check.py).  This target only verifies the toolchain.
 engine:
-	@true
+	@gcc --version >/dev/null && clang --version >/dev/null && /usr/bin/python3 -c "import json" && mkdir -p build evidence replays && echo "verif engine: toolchain ok"
